@@ -33,7 +33,7 @@ META = {
                   "cut_circuit_mc's sample mode has no documented distribution (raw fragment samples under random settings) and is only checked "
                   "structurally. opt_einsum is used when importable.",
     "shards": {"quick": 3, "thorough": 16},
-    "budget_s": {"quick": 110, "thorough": 480},
+    "budget_s": {"quick": 110, "thorough": 300},
     "min_evals": {"quick": 150, "thorough": 3000},
     "min_nontrivial": {"quick": 60, "thorough": 1000},
     "deciding": ["cut.value", "cut.fragments", "mc.expectation"],
@@ -301,7 +301,7 @@ def run(ctx):
         else:
             if not designed:
                 return
-        mode = "fn" if rng.random() < 0.8 else "samples"
+        mode = "fn" if (designed or rng.random() < 0.7) else "samples"
         info = {"tape": [circ.describe_op(o) for o in ops], "sampled_wires": mw, "shots": shots, "mode": mode, "exact_parity": want}
         info["family"] = "correlated-fragment" if designed else "random"
         ctx.case(fingerprint("mc", repr(info["tape"]), mw, mode), nontrivial=True, cls=f"mc/{mode}/{info['family']}", sample=info)
